@@ -229,6 +229,9 @@ func (n *nodeSim) algoOwnsBlock(typ uint64) bool {
 
 // checkCopy: the bytes handed to a convergence layer against the bundle the node accepted (C06).
 func (n *nodeSim) checkCopy(tr *btrack, rec *sendRec) {
+	if n.idReusedAfterRestart(tr) {
+		return // two bundles share one store record (recorded finding under C05): their copies are not judged
+	}
 	n.res.Probe("copy_checked")
 	wp, wbs, err := splitBundle(rec.wire)
 	if err != nil {
